@@ -46,6 +46,14 @@ TEXT = {
          "and the straight segment (-1, foot-point case split); linearity in excitation for Sphere; other classes by rescaling oracle over 1e-9..1e9",
          "exact real arithmetic; Cuboid/Cylinder/Segment/Circle/Triangle kernels not ported; TriangularMesh small-scale failure is a recorded finding",
          "Lean 4 theorems over R on kernel ports tied by IEEE-double correspondence + rescaling oracle"),
+ "C01": ("proof (partial): Dipole kernel = point-dipole formula; the Biot-Savart integral of a straight filament in closed form by FTC; Sphere solution (with C13/C14); wrappers add exactly the interior term (C02); "
+         "frame change (C03). Other closed forms vs their defining integrals: not shown by theorem, checked by numerical quadrature of the integrals for all 10 classes",
+         "Mathlib lacks elliptic-integral theory and surface integrals over triangles/cylinder shells; exact real arithmetic",
+         "Lean 4 theorems (interval integral via FTC, algebra) on kernel ports tied by IEEE-double correspondence + first-principles quadrature oracle"),
+ "C13": ("proof (partial): Sphere outside = Dipole with moment J*V/mu0; mesh/tetrahedron H = sum of triangle sheets by construction; other representation identities by whole-vs-parts oracle",
+         "identities between different closed forms are equivalent to C01 for both sides", "Lean 4 theorems over R + whole-vs-parts differential oracle on the real code"),
+ "C14": ("proof (partial): Sphere interface conditions (normal B, tangential H continuous) and B - mu0 H = J inside; flux/circulation for general surfaces and loops by quadrature oracle",
+         "needs Gauss/Stokes for general surfaces (not in Mathlib) and C01 per class", "Lean 4 theorems over R + flux/circulation quadrature oracle on the real code"),
 }
 props = [json.loads(l) for l in open("properties.jsonl")]
 checks = []
